@@ -329,6 +329,19 @@ pub fn parse_items(src: &str) -> Result<Vec<Item>, String> {
                     value,
                 });
             }
+            // `use …;` and `type … = …;` carry no table content
+            Tok::Ident(ref id) if id == "use" || id == "type" => {
+                let mut depth = 0i32;
+                loop {
+                    match p.next() {
+                        Some(Tok::P('{')) | Some(Tok::P('(')) | Some(Tok::P('[')) => depth += 1,
+                        Some(Tok::P('}')) | Some(Tok::P(')')) | Some(Tok::P(']')) => depth -= 1,
+                        Some(Tok::P(';')) if depth <= 0 => break,
+                        Some(_) => {}
+                        None => return Err(format!("unterminated `{}` item", id)),
+                    }
+                }
+            }
             o => return Err(format!("unexpected token {:?} at top level (token {})", o, p.i)),
         }
     }
